@@ -119,6 +119,10 @@ def stepCur (S : Sekai.Ident.State) (toks : List String) : Sekai.Ident.State × 
     match nat? p, nat? o, nat? n, parse01 ok with
     | some p, some o, some n, some ok => run1 S (.rotate p o n ok)
     | _, _, _, _ => (S, "bad-op")
+  | ["reimport"] =>
+    match reimport S with
+    | some S' => (S', "ok")
+    | none => (S, "panic")
   | ["obs", accs] =>
     match natList? accs with
     | some accs => (S, obs S accs)
